@@ -64,7 +64,7 @@ class IterReader:
         return st.Line(text + "\r\n")
 
 
-def session(kind_i, k, bs, with_data, late_connect, follow_i):
+def session(kind_i, k, bs, with_data, late_connect, follow_i, lat=0):
     """PASV, (client connects | does not | connects later), transfer, ABOR at the k-th iteration after the 150 mark, follow-up"""
     hb.KEY = ""
     kind = KINDS[hb.conc(kind_i, 0, 4)]
@@ -72,6 +72,7 @@ def session(kind_i, k, bs, with_data, late_connect, follow_i):
     user = aioftp.User("bob", None, base_path="/srv")
     server = st.make_server([user], block_size=bs, wait_future_timeout=30)
     st.build_tree(server, TREE)
+    hb.SpyPathIO.reset(latency=hb.conc(lat, 0, 3))  # lat > 0: every backend call suspends (AsyncPathIO timing), so ABOR can arrive inside one
     LS.started.clear()
     LS.fail = None
     loop = hb.new_loop()
@@ -156,6 +157,7 @@ def session(kind_i, k, bs, with_data, late_connect, follow_i):
         raised = "cancelled"
     except Exception as e:  # noqa: BLE001
         raised = e
+    hb.SpyPathIO.latency = 0
     replies = hb.reply_codes(writer)
     codes = [c for c, sep, _ in replies if sep == " "]
     hb.path_done("c14_" + kind, ",".join(codes))
@@ -187,9 +189,7 @@ def session(kind_i, k, bs, with_data, late_connect, follow_i):
             # legitimate only if the connection was never taken by the transfer (ABOR won before the worker got it) and the
             # session still owns it; it is then closed with the session
             hb.KEY = "data-connection-open-after-abor"
-            if not (seg == ["426", "226"] or seg == ["425", "226"]):
-                return False
-            hb.KEY = ""
+            return False
     # only a prefix of the data delivered or stored
     tp = st.tree_paths(server)
     if kind == "retr" and first_data:
